@@ -134,9 +134,24 @@ impl Opts {
             obs_twice: false,
             commit_compare: false,
             obs_cfg_slots: vec![0, 1, 2, 3],
-            probes: Vec::new(),
+            probes: view_probes(),
         }
     }
+}
+
+/// Simulations issued with every observation (at block boundaries): what contract code sees of the state.
+pub fn view_probes() -> Vec<(String, Value)> {
+    use alloy::primitives::Address;
+    let s: Address = Tgt::s().resolve().unwrap().parse().unwrap();
+    let mut accounts: Vec<Vec<u8>> = vec![s.to_vec(), s.create(1).to_vec(), s.create(2).to_vec()];
+    accounts.push(CONTROLLER.parse::<Address>().unwrap().to_vec());
+    accounts.push(pk_addr(0).to_vec());
+    accounts.push(crate::sign::signer_addr(0).to_vec());
+    let code = crate::asm::view_initcode(s.as_slice(), &accounts);
+    vec![
+        ("eth_call".to_string(), json!([{"from": addr_s(pk_addr(0)), "data": hx(&code)}, null])),
+        ("eth_call".to_string(), json!([{"from": addr_s(crate::sign::signer_addr(0)), "data": hx(&code)}, "pending"])),
+    ]
 }
 
 pub type BoundaryOracle<'a> = Box<dyn FnMut(&mut Inst, &World, &[StepOut]) -> Vec<(String, String)> + 'a>;
@@ -516,14 +531,18 @@ pub struct Shard {
 }
 
 /// Run the exploration of one (start state, alphabet, bounds) on this worker's shard.
-pub fn explore(runner: &mut Runner, b: &Bounds, shard: &Shard, deadline: std::time::Instant, seed: u64, validate_n: usize) {
+/// `resume_from`: paths whose enumeration number is below it were checked by an earlier call (same
+/// scenario, start, bounds and shard) and are skipped. Returns the number of the first path that was not
+/// checked when the deadline struck, or None when the enumeration was completed.
+pub fn explore(runner: &mut Runner, b: &Bounds, shard: &Shard, deadline: std::time::Instant, seed: u64, validate_n: usize, resume_from: u64) -> Option<u64> {
     let alphabet = runner.alphabet.clone();
     let mut counter: u64 = 0;
+    let mut stopped_at: Option<u64> = None;
     let mut mine: Vec<Vec<usize>> = Vec::new();
     let mut completed = 0usize;
     let mut timed_out = false;
     // the empty path (start state itself) belongs to shard 0
-    if shard.index == 0 {
+    if shard.index == 0 && resume_from == 0 {
         let v = runner.check_path(&[], false);
         runner.stats.violations.extend(v);
     }
@@ -531,10 +550,11 @@ pub fn explore(runner: &mut Runner, b: &Bounds, shard: &Shard, deadline: std::ti
         let mut cb = |path: &[usize], has_dev: bool| -> bool {
             let c = counter;
             counter += 1;
-            if (c / shard.chunk) % shard.count != shard.index {
+            if (c / shard.chunk) % shard.count != shard.index || c < resume_from {
                 return true;
             }
             if std::time::Instant::now() > deadline || rss_mb() > 6000 {
+                stopped_at = Some(c);
                 return false;
             }
             let v = runner.check_path(path, has_dev);
@@ -552,7 +572,11 @@ pub fn explore(runner: &mut Runner, b: &Bounds, shard: &Shard, deadline: std::ti
                 mine.push(path.to_vec());
             }
             // stop early once many violations were collected
-            runner.stats.violations.len() < 40
+            if runner.stats.violations.len() >= 40 {
+                stopped_at = Some(u64::MAX);
+                return false;
+            }
+            true
         };
         let go = enumerate(&alphabet, b, len, &mut cb);
         if !go {
@@ -563,6 +587,7 @@ pub fn explore(runner: &mut Runner, b: &Bounds, shard: &Shard, deadline: std::ti
     }
     runner.stats.depth_completed = completed;
     runner.stats.complete = !timed_out;
+    let _ = &stopped_at;
     // conformance of wipe+replay with a real fresh open
     if !mine.is_empty() && validate_n > 0 {
         let mut x = seed.wrapping_mul(6364136223846793005).wrapping_add(1442695040888963407 + shard.index);
@@ -576,6 +601,7 @@ pub fn explore(runner: &mut Runner, b: &Bounds, shard: &Shard, deadline: std::ti
             }
         }
     }
+    if timed_out { Some(stopped_at.unwrap_or(u64::MAX)) } else { None }
 }
 
 /// Greedy shrinking: remove macros while a violation of the same kind persists.
